@@ -316,6 +316,43 @@ def check_stored_1m(repo, rep):
     rep.floor(rid, 1)
 
 
+def check_normalisation_visible(repo, rep):
+    rid = "C07-R7"
+    rep.rule(rid, "the gap normalisation of a 1m candle must be visible in the array the higher timeframes are aggregated from: "
+                  "_get_fixed_jumped_candle edits its argument row in place and returns that same row, or the call site writes the "
+                  "result back into the input array (otherwise stored 1m candles and completed higher-timeframe candles disagree)")
+    fn = repo.func(BT, "_get_fixed_jumped_candle")
+    from fractions import Fraction as F
+    inplace = True
+    smp = [{"pc": F(5), "o": F(7), "c": F(8), "h": F(9), "l": F(6), "ts": F(0), "v": F(1), "pts": F(0), "po": F(1), "ph": F(1), "pl": F(1), "pv": F(1)},
+           {"pc": F(9), "o": F(7), "c": F(8), "h": F(8), "l": F(6), "ts": F(0), "v": F(1), "pts": F(0), "po": F(1), "ph": F(1), "pl": F(1), "pv": F(1)}]
+    for s1 in smp:
+        def mk(dec):
+            it = Interp(repo, samples=[dict(s1)], decisions=dec)
+            prev = Arr([A("pts"), A("po"), A("pc"), A("ph"), A("pl"), A("pv")])
+            c = Arr([A("ts"), A("o"), A("c"), A("h"), A("l"), A("v")])
+            it.c = c
+            return it, lambda it: it.call(FuncV(fn, repo.module(BT), qual="_get_fixed_jumped_candle"), [prev, c], {})
+        for out in explore(mk, 16):
+            same_obj = out.kind == "return" and out.value is out.interp.c
+            mutated = isinstance(out.interp.c.items[1], R) and out.interp.c.items[1].same(A("pc"))
+            if not (same_obj and mutated):
+                inplace = False
+            rep.instance(rid, f"in-place|pc={s1['pc']}", {"returns_argument": same_obj, "argument_mutated": mutated})
+    # call sites
+    for fname in ("_step_simulator", "_simulate_new_candles"):
+        f2 = repo.func(BT, fname)
+        for st in ast.walk(f2):
+            if isinstance(st, ast.Assign) and isinstance(st.value, ast.Call) and SL.last(SL.dotted(st.value.func)) == "_get_fixed_jumped_candle":
+                writes_back = isinstance(st.targets[0], ast.Subscript)
+                if not writes_back and not inplace:
+                    rep.violation(rid, f"{fname}|normalisation-lost",
+                                  f"{fname}: `{norm(st)[:90]}` keeps the normalised candle in a local only and _get_fixed_jumped_candle does not edit "
+                                  f"the input row in place: higher timeframes are aggregated from the un-normalised input while the normalised candle is stored as 1m")
+                rep.instance(rid, f"{fname}|{norm(st.targets[0])}", {"writes_back": writes_back, "callee_in_place": inplace})
+    rep.floor(rid, 3)
+
+
 def run(repo: Repo, rep, tier: str):
     rep.exhaustive = True
     rep.assume("sessions start and warm-up lengths are aligned to every route timeframe (stated in the property)")
@@ -325,6 +362,7 @@ def run(repo: Repo, rep, tier: str):
     rep.guarded(check_tables, repo, rep)
     rep.guarded(check_forming, repo, rep)
     rep.guarded(check_stored_1m, repo, rep)
+    rep.guarded(check_normalisation_visible, repo, rep)
     rep.undecided_item("numerical equality of every stored candle at every observation time of a whole run (the per-site formulas and window arithmetic are decided)")
 
 
